@@ -69,6 +69,20 @@ func docFcgiClusterConf() obj { // second cluster of the documented example
 	return c
 }
 
+// place puts the subject element of a list at the position the shape asks for, among
+// well-formed siblings: only [s], first [s p1], middle [p1 s p2], last [p1 s].
+func place(pos string, subject interface{}, p1, p2 interface{}) arr {
+	switch pos {
+	case "first":
+		return arr{subject, p1}
+	case "middle":
+		return arr{p1, subject, p2}
+	case "last":
+		return arr{p1, subject}
+	}
+	return arr{subject}
+}
+
 // container states shared by many fields: sets doc[key] according to st; returns true when handled
 func container(doc obj, key, st string, okVal interface{}, badType interface{}) bool {
 	switch st {
@@ -115,7 +129,9 @@ func buildHost(s map[string]string) obj {
 	default:
 		panic("hDefault " + st)
 	}
-	okHosts := obj{"tag1": arr{"example.org"}}
+	pos := s["sPos"]
+	hl := func(subject interface{}) arr { return place(pos, subject, "pad1.example.org", "pad2.example.org") }
+	okHosts := obj{"tag1": hl("example.org")}
 	if !container(doc, "Hosts", s["hHosts"], okHosts, arr{}) {
 		switch st := s["hHosts"]; st {
 		case "empty":
@@ -127,14 +143,15 @@ func buildHost(s map[string]string) obj {
 		case "vempty":
 			doc["Hosts"] = obj{"tag1": arr{}}
 		case "ebadtype":
-			doc["Hosts"] = obj{"tag1": arr{5}}
+			doc["Hosts"] = obj{"tag1": hl(5)}
 		case "tagdangling":
-			doc["Hosts"] = obj{"tag1": arr{"example.org"}, "ghost_tag": arr{"ghost.example.org"}}
+			doc["Hosts"] = obj{"tag1": hl("example.org"), "ghost_tag": arr{"ghost.example.org"}}
 		default:
 			panic("hHosts " + st)
 		}
 	}
-	okTags := obj{"p1": arr{"tag1"}}
+	tl := func(subject interface{}) arr { return place(pos, subject, "padtag1", "padtag2") }
+	okTags := obj{"p1": tl("tag1")}
 	if !container(doc, "HostTags", s["hHostTags"], okTags, arr{}) {
 		switch st := s["hHostTags"]; st {
 		case "empty":
@@ -146,7 +163,7 @@ func buildHost(s map[string]string) obj {
 		case "vempty":
 			doc["HostTags"] = obj{"p1": arr{}}
 		case "ebadtype":
-			doc["HostTags"] = obj{"p1": arr{5}}
+			doc["HostTags"] = obj{"p1": tl(5)}
 		default:
 			panic("hHostTags " + st)
 		}
@@ -157,7 +174,8 @@ func buildHost(s map[string]string) obj {
 func buildVip(s map[string]string) obj {
 	doc := obj{}
 	setVersion(doc, "Version", s["vVersion"])
-	ok := obj{"p1": arr{"111.111.111.111"}}
+	vl := func(subject interface{}) arr { return place(s["sPos"], subject, "111.111.111.121", "111.111.111.122") }
+	ok := obj{"p1": vl("111.111.111.111")}
 	if !container(doc, "Vips", s["vVips"], ok, arr{}) {
 		switch st := s["vVips"]; st {
 		case "empty":
@@ -169,13 +187,13 @@ func buildVip(s map[string]string) obj {
 		case "vempty":
 			doc["Vips"] = obj{"p1": arr{}}
 		case "ebadtype":
-			doc["Vips"] = obj{"p1": arr{5}}
+			doc["Vips"] = obj{"p1": vl(5)}
 		case "badip":
-			doc["Vips"] = obj{"p1": arr{"300.1.1.1"}}
+			doc["Vips"] = obj{"p1": vl("300.1.1.1")}
 		case "ipv6":
-			doc["Vips"] = obj{"p1": arr{"fd00::1"}}
+			doc["Vips"] = obj{"p1": vl("fd00::1")}
 		case "proddangling":
-			doc["Vips"] = obj{"p1": arr{"111.111.111.111"}, "ghost_product": arr{"111.111.111.112"}}
+			doc["Vips"] = obj{"p1": vl("111.111.111.111"), "ghost_product": arr{"111.111.111.112"}}
 		default:
 			panic("vVips " + st)
 		}
@@ -220,7 +238,21 @@ func buildRoute(s map[string]string) obj {
 	default:
 		panic("rAdvCluster " + st)
 	}
-	okAdv := obj{"p1": arr{r1, obj{"Cond": "default_t()", "ClusterName": "c1"}}}
+	pos := s["sPos"]
+	defRule := obj{"Cond": "default_t()", "ClusterName": "c1"} // "There must be one Default Rule"
+	padRule := obj{"Cond": `req_path_in("/pad1", false)`, "ClusterName": "c1"}
+	advList := func(subject interface{}) arr {
+		switch pos {
+		case "first":
+			return arr{subject, padRule, defRule}
+		case "middle":
+			return arr{padRule, subject, defRule}
+		case "last":
+			return arr{padRule, defRule, subject}
+		}
+		return arr{subject, defRule} // the documented example
+	}
+	okAdv := obj{"p1": advList(r1)}
 	if !container(doc, "ProductRule", s["rProductRule"], okAdv, arr{}) {
 		switch st := s["rProductRule"]; st {
 		case "empty":
@@ -232,7 +264,7 @@ func buildRoute(s map[string]string) obj {
 		case "vempty":
 			doc["ProductRule"] = obj{"p1": arr{}}
 		case "ebadtype":
-			doc["ProductRule"] = obj{"p1": arr{5}}
+			doc["ProductRule"] = obj{"p1": advList(5)}
 		case "proddangling":
 			doc["ProductRule"] = obj{"p1": arr{obj{"Cond": "default_t()", "ClusterName": "c1"}},
 				"ghost_product": arr{obj{"Cond": "default_t()", "ClusterName": "c1"}}}
@@ -240,7 +272,14 @@ func buildRoute(s map[string]string) obj {
 			panic("rProductRule " + st)
 		}
 	}
-	b1 := obj{"Hostname": arr{"x.example.org"}, "Path": arr{"/a"}, "ClusterName": "c1"}
+	// Hostname / Path lists of the subject basic rule: subject element among well-formed siblings
+	bl := func(key string, subject interface{}) arr {
+		if key == "Hostname" {
+			return place(pos, subject, "padh1.example.org", "padh2.example.org")
+		}
+		return place(pos, subject, "/padp1", "/padp2")
+	}
+	b1 := obj{"Hostname": bl("Hostname", "x.example.org"), "Path": bl("Path", "/a"), "ClusterName": "c1"}
 	listField := func(key, st string, vals map[string]interface{}) {
 		switch st {
 		case "ok":
@@ -251,9 +290,9 @@ func buildRoute(s map[string]string) obj {
 		case "badtype":
 			b1[key] = "x.example.org"
 		case "ebadtype":
-			b1[key] = arr{5}
+			b1[key] = bl(key, 5)
 		case "emptystr":
-			b1[key] = arr{""}
+			b1[key] = bl(key, "")
 		case "emptylist":
 			b1[key] = arr{}
 		default:
@@ -261,14 +300,14 @@ func buildRoute(s map[string]string) obj {
 			if !ok {
 				panic(key + " " + st)
 			}
-			b1[key] = v
+			b1[key] = bl(key, v)
 		}
 	}
 	listField("Hostname", s["rBasicHost"], map[string]interface{}{
-		"wildcard": arr{"*.example.org"}, "any": arr{"*"}, "badwild": arr{"*est.com"}, "twostar": arr{"*.*.com"}})
+		"wildcard": "*.example.org", "any": "*", "badwild": "*est.com", "twostar": "*.*.com"})
 	listField("Path", s["rBasicPath"], map[string]interface{}{
-		"prefix": arr{"/a/*"}, "any": arr{"*"}, "badprefix": arr{"/fo*"}, "twostar": arr{"/*/*"},
-		"midstar": arr{"/a*/b"}, "noslash": arr{"a"}})
+		"prefix": "/a/*", "any": "*", "badprefix": "/fo*", "twostar": "/*/*",
+		"midstar": "/a*/b", "noslash": "a"})
 	switch st := s["rBasicCluster"]; st {
 	case "ok":
 	case "advmode":
@@ -286,7 +325,11 @@ func buildRoute(s map[string]string) obj {
 	default:
 		panic("rBasicCluster " + st)
 	}
-	okBasic := obj{"p1": arr{b1}}
+	padB := func(i int) obj {
+		return obj{"Hostname": arr{fmt.Sprintf("padrule%d.example.org", i)}, "Path": arr{"/pad"}, "ClusterName": "c1"}
+	}
+	basicList := func(subject interface{}) arr { return place(pos, subject, padB(1), padB(2)) }
+	okBasic := obj{"p1": basicList(b1)}
 	if !container(doc, "BasicRule", s["rBasicRule"], okBasic, arr{}) {
 		switch st := s["rBasicRule"]; st {
 		case "empty":
@@ -298,7 +341,7 @@ func buildRoute(s map[string]string) obj {
 		case "vempty":
 			doc["BasicRule"] = obj{"p1": arr{}}
 		case "ebadtype":
-			doc["BasicRule"] = obj{"p1": arr{5}}
+			doc["BasicRule"] = obj{"p1": basicList(5)}
 		case "proddangling":
 			doc["BasicRule"] = obj{"ghost_product": arr{obj{"Hostname": arr{"x.example.org"}, "ClusterName": "c1"}}}
 		default:
@@ -459,7 +502,11 @@ func buildCTable(s map[string]string) obj {
 	fld("Name", s["tName"], 5, nil)
 	fld("Port", s["tPort"], true, map[string]interface{}{"strnum": "10257"})
 	fld("Weight", s["tWeight"], true, map[string]interface{}{"strnum": "10", "zero": 0})
-	ok := obj{"cluster_example": obj{"example.bfe.bj": arr{inst}}}
+	padI := func(i int) obj {
+		return obj{"Addr": fmt.Sprintf("10.199.189.%d", 100+i), "Name": fmt.Sprintf("pad_hostname%d", i), "Port": 10257, "Weight": 10}
+	}
+	il := func(subject interface{}) arr { return place(s["tPos"], subject, padI(1), padI(2)) }
+	ok := obj{"cluster_example": obj{"example.bfe.bj": il(inst)}}
 	if !container(doc, "Config", s["tConfig"], ok, arr{}) {
 		switch st := s["tConfig"]; st {
 		case "empty":
@@ -475,9 +522,9 @@ func buildCTable(s map[string]string) obj {
 		case "subempty":
 			doc["Config"] = obj{"cluster_example": obj{"example.bfe.bj": arr{}}}
 		case "elemnull":
-			doc["Config"] = obj{"cluster_example": obj{"example.bfe.bj": arr{nil}}}
+			doc["Config"] = obj{"cluster_example": obj{"example.bfe.bj": il(nil)}}
 		case "elembadtype":
-			doc["Config"] = obj{"cluster_example": obj{"example.bfe.bj": arr{5}}}
+			doc["Config"] = obj{"cluster_example": obj{"example.bfe.bj": il(5)}}
 		default:
 			panic("tConfig " + st)
 		}
@@ -520,6 +567,7 @@ func baseStates(k string) map[string]string {
 		"cProtocol": "absent", "cSchem": "http", "cHashStrategy": "id", "cBalanceMode": "absent", "cTimeout": "ok",
 		"gClusters": "ok", "gHostname": "ok", "gTs": "ok",
 		"tVersion": "ok", "tConfig": "ok", "tAddr": "ok", "tName": "ok", "tPort": "ok", "tWeight": "ok",
+		"sPos": "only", "tPos": "only",
 	}
 	return m
 }
@@ -595,8 +643,10 @@ func confCaseRun(c *confCase, res *result) {
 		}
 		what = "LoadServerDataConf"
 		var panicked bool
+		var sdc *bfe_route.ServerDataConf
 		loadErr, panicked = guardedLoad(res, what, sig, func() error {
-			sdc, err := bfe_route.LoadServerDataConf(paths["host"], paths["vip"], paths["route"], paths["cluster"])
+			var err error
+			sdc, err = bfe_route.LoadServerDataConf(paths["host"], paths["vip"], paths["route"], paths["cluster"])
 			if err == nil && sdc == nil {
 				return fmt.Errorf("nil ServerDataConf without error")
 			}
@@ -606,6 +656,12 @@ func confCaseRun(c *confCase, res *result) {
 			return
 		}
 		accepted = loadErr == nil
+		if accepted {
+			if p := useSDC(sdc, dir); p != "" {
+				res.fail("panic-in-use/"+sig, "LoadServerDataConf accepted the files, using the configuration panicked: "+p, c.S)
+				return
+			}
+		}
 	case "gslb", "ctable":
 		var d obj
 		if c.K == "gslb" {
@@ -622,6 +678,9 @@ func confCaseRun(c *confCase, res *result) {
 			return
 		}
 		accepted = loadErr == nil
+		if accepted && useWithCounterpart(res, c.K, p, dir, sig, c.S) {
+			return
+		}
 	case "file":
 		tgt := c.S["target"]
 		base := baseStates("")
@@ -652,6 +711,9 @@ func confCaseRun(c *confCase, res *result) {
 			return
 		}
 		accepted = loadErr == nil
+		if accepted && useWithCounterpart(res, tgt, p, dir, sig, c.S) {
+			return
+		}
 	default:
 		panic("kind " + c.K)
 	}
@@ -683,4 +745,55 @@ func confCaseRun(c *confCase, res *result) {
 	if m != c.M && res.OK { // (a Layer-P contradiction is reported as such, not as drift)
 		res.Drift = append(res.Drift, fmt.Sprintf("action=load kind=%s shape=%s loaders say %s, mechanism model says %s (%v)", c.K, sig, m, c.M, loadErr))
 	}
+}
+
+// useWithCounterpart uses an accepted single file together with documented counterparts:
+// gslb.data + cluster_table.data through BalTable, a route-side file through LoadServerDataConf.
+// Returns true when the use crashed (reported).
+func useWithCounterpart(res *result, kind, path, dir, sig string, shape interface{}) bool {
+	base := baseStates("")
+	var p string
+	switch kind {
+	case "gslb":
+		ct := filepath.Join(dir, "cp_cluster_table.data")
+		writeJSON(ct, buildCTable(base))
+		p = useBal(path, ct, nil)
+	case "ctable":
+		g := filepath.Join(dir, "cp_gslb.data")
+		writeJSON(g, buildGslb(base))
+		p = useBal(g, path, nil)
+	default:
+		paths := map[string]string{}
+		for _, k := range []string{"host", "vip", "route", "cluster"} {
+			if k == kind {
+				paths[k] = path
+				continue
+			}
+			paths[k] = filepath.Join(dir, "cp_"+k+".data")
+			var d obj
+			switch k {
+			case "host":
+				d = buildHost(base)
+			case "vip":
+				d = buildVip(base)
+			case "route":
+				d = buildRoute(base)
+			case "cluster":
+				d = buildCluster(base)
+			}
+			writeJSON(paths[k], d)
+		}
+		var sdc *bfe_route.ServerDataConf
+		p = vh.Guard(func() {
+			sdc, _ = bfe_route.LoadServerDataConf(paths["host"], paths["vip"], paths["route"], paths["cluster"])
+		})
+		if p == "" && sdc != nil {
+			p = useSDC(sdc, dir)
+		}
+	}
+	if p != "" {
+		res.fail("panic-in-use/"+sig, kind+" loader accepted the file, using the configuration panicked: "+p, shape)
+		return true
+	}
+	return false
 }
